@@ -331,7 +331,7 @@ func configPhase(t *testing.T, r *mon.Run, k *checker) {
 			r.Event("config_invocations", 1)
 			r.Event("config_invocations:"+inv.Kind, 1)
 			k.judgeConfigCase(t, c)
-			if r.Violations() > 16 {
+			if r.Violations() > 16 || k.dead["flusher"] {
 				return
 			}
 		}
